@@ -105,6 +105,7 @@ const CWND_MIN_AFTER_RTO: usize = MAX_SCTP_PACKET_SIZE * 4; // 4 * 1200 = 4800 b
 // These values provide good memory efficiency while maintaining tolerance for packet loss
 const MAX_INBOUND_STREAM_PENDING: usize = 128; // max pending ordered messages per stream
 const MAX_DUPS_BUFFER_SIZE: usize = 32; // max duplicate TSNs to track (increased for lossy networks)
+const MAX_DATA_CHANNELS: usize = 1024; // live channels beyond which a peer's DCEP OPEN is refused (what browsers negotiate)
 const MAX_RECEIVED_QUEUE_SIZE: usize = 512; // max out-of-order packets (increased for lossy networks)
 
 // Fast Recovery re-entry cooldown: prevent rapid exit-then-re-enter cycles that
@@ -2974,16 +2975,28 @@ impl SctpInner {
                 trace!("Received DCEP OPEN: {:?}", open);
 
                 let mut found = false;
+                let mut live = 0usize;
                 {
                     let channels = self.data_channels.lock();
                     for weak_dc in channels.iter() {
-                        if let Some(dc) = weak_dc.upgrade()
-                            && dc.id == stream_id
-                        {
-                            found = true;
-                            break;
+                        if let Some(dc) = weak_dc.upgrade() {
+                            if dc.id == stream_id {
+                                found = true;
+                                break;
+                            }
+                            live += 1;
                         }
                     }
+                }
+
+                // Every OPEN on an unused stream id creates a channel that is kept for the
+                // life of the association; without a bound the peer decides how many.
+                if !found && live >= MAX_DATA_CHANNELS {
+                    return Err(anyhow::anyhow!(
+                        "DCEP OPEN on stream {} refused: {} data channels already open",
+                        stream_id,
+                        live
+                    ));
                 }
 
                 if !found {
